@@ -443,6 +443,9 @@ func TestC19(t *testing.T) {
 						reported = true
 						run.Violation("deadlock:"+blockedSig(x), fmt.Sprintf("[%s] history {%s}: the namespace manager deadlocks; blocked: %v", fam.name, histName(hist), x.Leaked), rep)
 						return true
+					case x.Outcome == "diverged":
+						fmt.Printf("INFRA-ERROR schedule replay diverged in [%s] history {%s}: executions are not a function of the scheduler's choices\n", fam.name, histName(hist))
+						os.Exit(2)
 					case x.Outcome != "ok":
 						reported = true
 						run.Violation("abnormal:"+x.Outcome, fmt.Sprintf("[%s] history {%s}: %s %s", fam.name, histName(hist), x.Outcome, x.PanicMsg), rep)
